@@ -30,7 +30,7 @@ Definition message (its : list item) : str := concat (map item_text its).
 
 (* the callables streamed, in order *)
 Definition calls_of (its : list item) : list nat :=
-  flat_map (fun it => match it with ICall id _ => [id] | _ => [] end) its.
+  flat_map (fun it => match it with ICall _ id _ => [id] | _ => [] end) its.
 
 Definition delivered (sv : sev) (tag : option str) (its : list item) : record :=
   mkRecord sv (tag_text tag) (message its).
